@@ -79,3 +79,16 @@ Proof.
   - exact (cursor_one_past_highest_blocks c ops Hc Hch Hops).
 Qed.
 Print Assumptions C19_cursor_blocks_chunked.
+
+(* the public rf_write_blocks in gapped mode: a call whose arrays pass the Python validation succeeds
+   and RETURNS one past the call's highest index, which becomes the next available sample and the
+   Spec cursor; any other call raises ValueError and changes nothing *)
+Theorem C19_rf_write_blocks_gapped : forall c ps s G D vec,
+  vcfg c -> c_chunk c = true -> c_cont c = false ->
+  PyInv (refines c) ps s -> first_nonneg (combine G D) ->
+  if py_arrays_ok (s_cur s) (zlen vec) G D
+  then fst (py_rf_write_blocks c ps G D vec) = (OK, blocks_end (combine G D) (zlen vec)) /\
+       PyInv (refines c) (snd (py_rf_write_blocks c ps G D vec)) (spec_step_blocks c s (combine G D, vec))
+  else (exists code, py_rf_write_blocks c ps G D vec = ((ValueError, code), ps)).
+Proof. exact py_rf_write_blocks_gapped. Qed.
+Print Assumptions C19_rf_write_blocks_gapped.
